@@ -20,6 +20,7 @@ import (
 	"testing"
 	"time"
 
+	"github.com/icon-project/goloop/common"
 	"github.com/icon-project/goloop/common/codec"
 	"github.com/icon-project/goloop/common/crypto"
 	"github.com/icon-project/goloop/common/wallet"
@@ -41,6 +42,11 @@ type step struct {
 	Err bool   `json:"err"`
 	Res string `json:"res"`
 	ID  string `json:"id"`
+	Acc []struct {
+		S    int    `json:"s"`
+		Side string `json:"side"`
+		ID   string `json:"id"`
+	} `json:"acc"` // identities assigned so far, as the spec says they must (still) be
 }
 
 type verdict struct {
@@ -53,6 +59,8 @@ type node struct {
 	w        module.Wallet
 	a        *network.Authenticator
 	id       module.PeerID
+	idb      []byte // the node's identity as plain bytes (copies, independent of any PeerID object)
+	ids      string
 	accepted map[*network.Peer]module.PeerID // peers handed to the next handler, with their id at that moment
 }
 
@@ -60,6 +68,8 @@ func newNode(name string) *node {
 	n := &node{name: name, w: wallet.New(), accepted: map[*network.Peer]module.PeerID{}}
 	n.a = network.VerifNewAuthenticator(n.w)
 	n.id = network.NewPeerIDFromAddress(n.w.Address())
+	n.idb = append([]byte(nil), n.w.Address().ID()...)
+	n.ids = n.w.Address().String()
 	network.VerifAuthSetNext(n.a, func(p *network.Peer) { n.accepted[p] = p.ID() })
 	return n
 }
@@ -137,7 +147,7 @@ func (w *world) start(s int) *verdict {
 		}
 	}
 	// the genuine request must be what the spec says the dialer emits: its key, its signature over this secret
-	if id, err := se.acceptor.a.VerifySignature(rq.PublicKey, rq.Signature, sd); err != nil || !id.Equal(se.dialer.id) {
+	if id, err := se.acceptor.a.VerifySignature(rq.PublicKey, rq.Signature, sd); err != nil || !is(id, se.dialer) {
 		return &verdict{"handshake:genuine-request", fmt.Sprintf("session %d: the dialer's own SignatureRequest does not verify: %v", s, err), false}
 	}
 	return nil
@@ -170,6 +180,62 @@ func (w *world) replayTranscript(t, from int) *verdict {
 		if o != t && other.secret != nil && bytes.Equal(other.secret, se.secret) {
 			// keep going: the replayed SignatureRequest will show what this allows
 			w.pending = &verdict{"authenticator:session-secret-reused", fmt.Sprintf("connection %d opened with the recorded SecureRequest of session %d got the SAME session secret as session %d: the acceptor contributed no fresh randomness, recorded signatures stay valid", t, from, o), true}
+		}
+	}
+	return nil
+}
+
+// is reports whether a PeerID denotes node n (compared by value, not by object)
+func is(id module.PeerID, n *node) bool {
+	return id != nil && bytes.Equal(id.Bytes(), n.idb) && id.String() == n.ids
+}
+
+// otherIDs: the environment creates many peer ids that have nothing to do with the sessions -- more than
+// the id cache of the network package holds (100) -- through every public way an id comes into being
+func (w *world) otherIDs(n int) *verdict {
+	var wire bytes.Buffer
+	pw := network.NewPacketWriter(&wire)
+	for i := 0; i < n; i++ {
+		b := make([]byte, 20)
+		w.rnd.Read(b)
+		switch i % 3 {
+		case 0:
+			_ = network.NewPeerID(b)
+		case 1:
+			_ = network.NewPeerIDFromAddress(common.NewAccountAddress(b))
+		default: // a packet with a foreign src id passes through the packet reader
+			pkt := network.VerifNewPacket(network.VerifPacket{Protocol: 0x0500, SubProtocol: 0x0100, Src: b, Dest: 0, TTL: 0, Payload: []byte{byte(i)}})
+			if err := pw.WritePacket(pkt); err != nil {
+				return &verdict{"handshake:driver", "WritePacket: " + err.Error(), false}
+			}
+			if _, err := network.NewPacketReader(&wire).ReadPacket(); err != nil {
+				return &verdict{"handshake:driver", "ReadPacket: " + err.Error(), false}
+			}
+		}
+	}
+	return nil
+}
+
+// identities compares Peer.ID() of every connection the spec lists as identified with the proven identity
+func (w *world) identities(i int, st step) *verdict {
+	for _, a := range st.Acc {
+		se := w.sess[a.S]
+		if se == nil {
+			continue
+		}
+		p, holder := se.pa, se.acceptor
+		if a.Side == "d" {
+			p, holder = se.pd, se.dialer
+		}
+		if p == nil {
+			continue
+		}
+		if _, ok := holder.accepted[p]; !ok {
+			continue // not handed on by the real code: reported where it happened
+		}
+		if got := p.ID(); !is(got, w.nodes[a.ID]) {
+			return &verdict{"authenticator:identity-changed",
+				fmt.Sprintf("step %d (%s): the connection of session %d (%s side) was identified as node %s (%s) by a verified signature, now Peer.ID() returns %v: an accepted connection changed its identity without any proof", i, st.Op, a.S, map[string]string{"a": "acceptor", "d": "dialer"}[a.Side], a.ID, w.nodes[a.ID].ids, got), true}
 		}
 	}
 	return nil
@@ -258,7 +324,7 @@ func (w *world) deliver(i int, st step) *verdict {
 		if err == nil && !wantOK {
 			return &verdict{"authenticator:verify-accepted:" + st.Res[6:], desc + ": VerifySignature returned no error, spec says " + st.Res, true}
 		}
-		if err == nil && !id.Equal(w.nodes[st.Pkw].id) {
+		if err == nil && !is(id, w.nodes[st.Pkw]) {
 			return &verdict{"authenticator:wrong-id", desc + fmt.Sprintf(": VerifySignature returned id %v, the key belongs to %v", id, w.nodes[st.Pkw].id), true}
 		}
 		if err != nil && wantOK {
@@ -266,7 +332,7 @@ func (w *world) deliver(i int, st step) *verdict {
 		}
 	}
 	pkt := network.VerifNewPacket(network.VerifPacket{Protocol: network.VerifProtoAuth, SubProtocol: sub,
-		Src: from.id.Bytes(), Dest: network.VerifDestPeer, TTL: 1, Payload: payload})
+		Src: from.idb, Dest: network.VerifDestPeer, TTL: 1, Payload: payload})
 	network.VerifAuthOnPacket(target.a, pkt, peer)
 	gotID, accepted := target.accepted[peer]
 	if accepted {
@@ -278,7 +344,7 @@ func (w *world) deliver(i int, st step) *verdict {
 			return &verdict{"authenticator:accepted:" + side + ":" + st.Res[6:],
 				desc + fmt.Sprintf(": the %s handed the peer on with identity %v, spec says %s", side, gotID, st.Res), true}
 		}
-		if !gotID.Equal(w.nodes[st.ID].id) {
+		if !is(gotID, w.nodes[st.ID]) {
 			return &verdict{"authenticator:wrong-id", desc + fmt.Sprintf(": peer got identity %v, spec says %s", gotID, st.ID), true}
 		}
 		if peer.IsClosed() {
@@ -308,7 +374,7 @@ func (w *world) deliver(i int, st step) *verdict {
 			return &verdict{"handshake:response", desc + fmt.Sprintf(": response error=%q, accepted=%v", rs.Error, accepted), false}
 		}
 		if accepted {
-			if id, err := se.dialer.a.VerifySignature(rs.PublicKey, rs.Signature, se.secret); err != nil || !id.Equal(se.acceptor.id) {
+			if id, err := se.dialer.a.VerifySignature(rs.PublicKey, rs.Signature, se.secret); err != nil || !is(id, se.acceptor) {
 				return &verdict{"handshake:genuine-response", desc + ": the acceptor's own SignatureResponse does not verify", false}
 			}
 		}
@@ -349,6 +415,11 @@ func runBehaviour(steps []step, rnd *rand.Rand) *verdict {
 			v = w.replayTranscript(st.S, st.Sc)
 		case "toacc", "todial":
 			v = w.deliver(i, st)
+		case "churn":
+			v = w.otherIDs(150)
+		}
+		if v == nil {
+			v = w.identities(i, st)
 		}
 		if v != nil {
 			if w.pending != nil && v.violation {
